@@ -34,7 +34,7 @@ MIN_NONTRIVIAL = {"quick": 400, "thorough": 4000}
 JOBS = {"quick": 10, "thorough": 16}
 
 L_QUICK = [1, 2, 3, 4, 5, 7, 8, 16, 31, 64, 100, 257, 1024, 1025, 2049, 4096, 4097]
-L_THOROUGH = L_QUICK + [16384, 65536, 262144]
+L_THOROUGH = L_QUICK + [16384, 65536, 262144, (1 << 20) + 7, 3 << 19]
 K_SET = [1, 2, 3, 17, 256, 5000]
 
 
@@ -52,6 +52,11 @@ def shards(tier, seed):
                 "env": {"NUMBA_ENABLE_CUDASIM": "1"},
                 "params": {"kind": "cuda", "seed": seed, "shard": 100, "n": n_cuda,
                            "tier": tier, "budget_s": budget * 3}})
+    if tier == "thorough":
+        # more simulated CUDA threads than a capped grid holds (64 blocks x 256): ~1 min per call
+        out.append({"name": "cudasim-many", "threads": 1, "timeout": 3000,
+                    "env": {"NUMBA_ENABLE_CUDASIM": "1"},
+                    "params": {"kind": "cuda-many", "seed": seed}})
     out.append({"name": "api", "threads": 2, "timeout": budget * 4 + 300,
                 "params": {"kind": "api", "seed": seed, "shard": 200,
                            "n": 24 if tier == "quick" else 300, "budget_s": budget}})
@@ -83,7 +88,10 @@ def make_case(seedt, tier, cuda):
             K = int(rng.choice([8193, 16385, 32769, 40000]))
             L = int(rng.choice([1, 2, 3, 5, 8, 16]))
         cap = 3_000_000 if tier == "quick" else 30_000_000
-        if rng.random() < 0.012:
+        if rng.random() < 0.008:
+            L, K = int(rng.choice([(1 << 20) + 7, 3 << 19])), int(rng.choice([1, 2]))  # > 2^20 samples
+            cap = 20_000_000
+        elif rng.random() < 0.012:
             # a gather of more than 2^23 samples (memory-capped block processing territory)
             L = int(rng.choice([1024, 2048, 4097]))
             K = int(9_500_000 // L) + int(rng.integers(0, 50))
@@ -303,10 +311,26 @@ def run_api(params, rec):
                                             f"{bound:.3e}")
 
 
+def run_cuda_many(params, rec):
+    from speckit import core
+    if not core._CUDA_ENABLED:
+        rec.note("CUDA simulator not enabled")
+        return
+    for i, (order, cross) in enumerate([(0, False), (0, True), (1, False), (-1, True)]):
+        c = {"kind": "kernel", "seed": [params["seed"], 300, i], "tier": "thorough", "cuda": True,
+             "L": 4, "K": 16801, "rec": "offset1e6", "pair": "mixed", "win": "hann",
+             "start": "random", "omega": "uniform", "order": order, "cross": cross,
+             "starts_dtype": "int64", "extra": -1}
+        run_case(c, rec, ["cuda"])
+        rec.count("cuda_many_segment_cases")
+
+
 def run_shard(params, rec):
     kind = params["kind"]
     if kind == "api":
         return run_api(params, rec)
+    if kind == "cuda-many":
+        return run_cuda_many(params, rec)
     cuda = kind == "cuda"
     if cuda:
         from speckit import core
